@@ -336,6 +336,10 @@ def _explore(out, tier, seed, facts, replay, tmp):
             TH = verif.field.Threshold(t)
             use_q = rng.random() < 0.5
             p_edges = sorted(rng.sample([0, 0.125, 0.25, 0.375, 0.5, 0.625, 0.75, 0.875, 1], rng.randint(3, 6)))
+            if rd == 0:
+                use_q, p_edges = True, [0, 0.25, 0.5, 1]          # always once: fewer bins than the default, the last one ending at probability 1
+            elif rd == 1:
+                use_q, p_edges = True, [k_ / 12.0 for k_ in range(13)]      # and more bins than the default
             default_rel = [0, 0.05, 0.15, 0.25, 0.35, 0.45, 0.55, 0.65, 0.75, 0.85, 0.95, 1]
             for diag in ("reliability", "discrimination", "roc"):
                 args = ["-m", diag, "-r", str(t)] + (["-q", ",".join(str(e) for e in p_edges)] if use_q else [])
